@@ -233,6 +233,8 @@ func genProgram(r *hk.Rand) *program {
 	for i := 0; i < depth; i++ {
 		var oc outcome
 		switch k := r.Intn(100); {
+		case k < 4:
+			oc = outcome{Kind: hk.Pick(r, []string{"statuscancel", "statusexpired"}), Status: hk.Pick(r, statuses)}
 		case k < 50:
 			oc = outcome{Kind: "status", Status: hk.Pick(r, statuses)}
 		case k < 58:
@@ -439,6 +441,8 @@ func coqCase(p *program, o *observation) (string, bool) {
 		switch oc.Kind {
 		case "status":
 			out = "(OStatus " + hk.CoqZ(int64(oc.Status)) + ")"
+		case "statuscancel", "statusexpired":
+			out = "(OStatusEnded " + hk.CoqZ(int64(oc.Status)) + ")"
 		default:
 			_, ec, canc := outcomeView(oc)
 			out = fmt.Sprintf("(OErr %s %s)", hk.CoqZ(int64(ec)), hk.CoqBool(canc))
